@@ -34,23 +34,42 @@ def g3_world_construction(prog):
     r = Result()
     aggs = aggregates_of(prog, 'world::World')
     checked_ctors = set()
-    for fn, b, i, s in aggs:
-        body = fn.body
+    S = pathsem.strip_refs
+    for fn in {fn.dp: fn for fn, b, i, s in aggs}.values():
         key = fn.path
-        asserts = [(cb, ct) for cb, ct in body.calls(lambda c: c['name'] == 'assert_no_duplicates')]
         is_clone = fn.name == 'clone' and 'core::clone::Clone for world::World' in fn.path
         r.inst('World aggregate in %s' % key)
         if is_clone:
             continue
-        if not asserts or not any(body.dominates(cb, b) for cb, ct in asserts):
-            r.viol('G3', key + '/unchecked-world', fn.loc(s['ln']),
-                   'a World is built here without a dominating duplicate-component assertion: a registry listing one type twice would be accepted and alias its columns')
+        top = owner_fn(prog, fn) if fn.kind == 'Closure' else fn
+        E = pathsem.analyse(prog, top)
+        rets = [p for p in E.paths if p.ended == 'return']
+        if E.truncated or not rets:
+            r.viol('G3', key + '/not-analysable', fn.loc(), 'path enumeration cut off')
+            continue
+        reg = None
+        if top.impl and top.impl['self'].get('k') == 'adt':
+            ga = [a_ for a_ in top.impl['self']['args'] if a_.get('k') != 'region']
+            reg = ga[0] if ga else None
+        bad = wrong = False
+        for p in rets:
+            builds = any(isinstance(t, tuple) and t[0] == 'agg' and t[1] == 'world::World'
+                         for root in [p.ret] + [e['value'] for e in p.events if e['k'] == 'store'] + [a_ for e in p.events if e['k'] == 'call' for a_ in e['args']]
+                         for t in pathsem.subterms(root))
+            if not builds:
+                continue
+            asserts = p.calls(lambda e: e['name'] == 'assert_no_duplicates')
+            if not asserts:
+                bad = True
+            elif reg is not None and not any(e['gargs'] and json.loads(e['gargs'][0]) == json.loads(pathsem.ty_key(strip_regions(reg))) for e in asserts):
+                wrong = True
+        if bad:
+            r.viol('G3', key + '/unchecked-world', fn.loc(),
+                   'a World is built here on a path without a duplicate-component assertion: a registry listing one type twice would be accepted and alias its columns')
+        elif wrong:
+            r.viol('G3', key + '/assert-on-other-type', fn.loc(), 'duplicate assertion is not applied to the world\'s registry type')
         else:
             checked_ctors.add(fn.dp)
-            for cb, ct in asserts:
-                g = ct['f']['args']
-                if not (g and is_param(g[0]) and g[0]['name'] in ('Registry', 'R')):
-                    r.viol('G3', key + '/assert-on-other-type', fn.loc(ct['ln']), 'duplicate assertion is not applied to the world\'s registry type')
     if not checked_ctors:
         r.viol('G3', 'no-checked-constructor', '-', 'no World constructor with a duplicate assertion found')
     # every fn whose output type is World / Result<World,..> (exported or not) and that does not take a
@@ -89,43 +108,42 @@ def g3_world_construction(prog):
                 r.viol('G3', 'assert/missing', impl_loc(imp), 'assert_no_duplicates for a cons cell not found')
                 continue
             f = fs[0]
-            body = f.body
             head = imp['self']['e'][0]
             tail = imp['self']['e'][1]
             r.inst('assert_no_duplicates for (C, R)')
-            tids = [(b, t) for b, t in body.calls(lambda c: c['path'] == 'core::any::TypeId::of')]
-            ins = [(b, t) for b, t in body.calls(lambda c: c['name'] == 'insert' and 'HashSet' in c['path'])]
-            tails = [(b, t) for b, t in body.calls(lambda c: c['name'] == 'assert_no_duplicates')]
-            if not tids or not any(ty_eq(t['f']['args'][0], head) for b, t in tids):
-                r.viol('G3', 'assert/wrong-typeid', f.loc(), 'assertion does not record the TypeId of the head component')
-            if len(ins) != 1:
-                r.viol('G3', 'assert/no-insert', f.loc(), 'assertion must insert the head TypeId into the set exactly once')
-            else:
-                ib, it = ins[0]
-                # inserted value derives from TypeId::of::<C>
-                v = op_local(it['args'][1])
-                if v is None or not any(v in derived(body, {t['dest']['l']}) for b, t in tids if ty_eq(t['f']['args'][0], head)):
-                    r.viol('G3', 'assert/inserts-other', f.loc(it['ln']), 'value inserted into the set is not TypeId::of::<C>()')
-                # false result must reach a panic (diverging call), true must reach the tail call
-                cl = it['dest']['l']
-                sw = [(b, body.term(b)) for b in range(body.n) if body.term(b)['k'] == 'switch' and op_local(body.term(b)['discr']) is not None
-                      and cl in derived(body, {cl}) and op_local(body.term(b)['discr']) in derived(body, {cl})]
-                ok = False
-                for b, t in sw:
-                    if 0 in t['values']:
-                        ft = t['targets'][t['values'].index(0)]
-                        tt = t['otherwise']
-                        # account for `!insert` negation: whichever edge, one must diverge without reaching return
-                        for panic_edge, good_edge in ((ft, tt), (tt, ft)):
-                            reach_p = body.reachable(panic_edge)
-                            if not (reach_p & set(body.return_blocks())) and any(body.term(x)['k'] == 'call' and body.term(x)['target'] is None for x in reach_p):
-                                ok = True
-                if not ok:
-                    r.viol('G3', 'assert/no-panic-on-duplicate', f.loc(it['ln']), 'a duplicate TypeId (insert returned false) does not lead to a panic')
-            if len(tails) != 1 or not (tails[0][1]['f']['args'] and ty_eq(tails[0][1]['f']['args'][0], tail)):
-                r.viol('G3', 'assert/tail-dropped', f.loc(), 'assertion does not continue with the tail registry: later components are not checked')
-            elif not body.must_pass(0, [tails[0][0]], body.return_blocks()):
-                r.viol('G3', 'assert/tail-skippable', f.loc(), 'a path returns without checking the tail registry')
+            E = pathsem.analyse(prog, f)
+            rets = [p for p in E.paths if p.ended == 'return']
+            rep = set()
+
+            def once(k, ln, msg, f=f, rep=rep):
+                if k not in rep:
+                    rep.add(k)
+                    r.viol('G3', 'assert/' + k, f.loc(ln), msg)
+            if E.truncated or not rets:
+                once('not-analysable', None, 'path enumeration cut off (or the assertion never returns)')
+                continue
+            setp = ('p', 1, f.body.local_name(1) or '')
+
+            def gty(e, i=0):
+                g = [json.loads(x) for x in e['gargs']]
+                return g[i] if len(g) > i else None
+            for p in rets:
+                tids = {e['ret']: e for e in p.calls(lambda e: e['path'] == 'core::any::TypeId::of')}
+                ins = p.calls(lambda e: e['name'] == 'insert' and 'HashSet' in e['path'] and S(S(e['args'][0])) == setp)
+                tails = p.calls(lambda e: e['name'] == 'assert_no_duplicates')
+                if len(ins) != 1:
+                    once('no-insert', None, 'assertion must insert the head TypeId into the set exactly once on every returning path (found %d)' % len(ins))
+                else:
+                    v = S(ins[0]['args'][1])
+                    te = tids.get(v)
+                    if te is None or not ty_eq(gty(te), strip_regions(head)):
+                        once('inserts-other' if te is None else 'wrong-typeid', ins[0]['ln'], 'value inserted into the set is not TypeId::of::<C>() of the head component')
+                    if p.lookup(ins[0]['ret']) is not True:
+                        once('no-panic-on-duplicate', ins[0]['ln'], 'a duplicate TypeId (insert returned false) does not lead to a panic: the assertion returns normally')
+                if len(tails) != 1 or not ty_eq(gty(tails[0]), strip_regions(tail)):
+                    once('tail-dropped' if not tails else 'tail-skippable' if len(tails) == 1 else 'tail-dropped', None, 'assertion does not continue with the tail registry exactly once on every returning path: later components are not checked')
+                elif S(S(tails[0]['args'][0])) != setp:
+                    once('tail-other-set', tails[0]['ln'], 'the tail registry is checked against a different set: duplicates across head and tail go unnoticed')
     return r
 
 
